@@ -1,0 +1,42 @@
+//go:build verif
+
+package latch
+
+// Test-only accessors for the /verif harness (build tag "verif"): they expose
+// the unexported method-granularity steps of the latch scheduler so that a
+// harness can play the scheduler goroutine and enumerate interleavings.
+
+// VerifGenLock is genLock.
+func (latches *Latches) VerifGenLock(startTS uint64, keys [][]byte) *Lock {
+	return latches.genLock(startTS, keys)
+}
+
+// VerifAcquire is acquire: 0 success, 1 locked (queued), 2 stale.
+func (latches *Latches) VerifAcquire(lock *Lock) int {
+	return int(latches.acquire(lock))
+}
+
+// VerifRelease is release; it returns the wake-up list.
+func (latches *Latches) VerifRelease(lock *Lock) []*Lock {
+	return latches.release(lock, nil)
+}
+
+// VerifHolder returns the lock that currently owns the latch of key (nil if none).
+func (latches *Latches) VerifHolder(key []byte) *Lock {
+	l := &latches.slots[latches.slotID(key)]
+	l.Lock()
+	defer l.Unlock()
+	if n := findNode(l.queue, key); n != nil {
+		return n.value
+	}
+	return nil
+}
+
+// VerifSlotID is slotID.
+func (latches *Latches) VerifSlotID(key []byte) int { return latches.slotID(key) }
+
+// VerifAcquiredCount returns the number of latches the lock has passed.
+func (l *Lock) VerifAcquiredCount() int { return l.acquiredCount }
+
+// VerifIsLocked is isLocked.
+func (l *Lock) VerifIsLocked() bool { return l.isLocked() }
